@@ -441,6 +441,8 @@ theorem addLine_star (ci neg abs dir : Bool) (sg : StarGlob) (h : StarCoreOK ci 
   simp only [hne2, Bool.false_eq_true, ↓reduceIte]
   rw [splitDirSlash_core dir hlast ⟨hl47, hl92⟩]
   simp only
+  have hne3 : (sg.text).isEmpty = false := by rw [hcore]; simp
+  simp only [hne3, Bool.and_false, Bool.false_eq_true, ↓reduceIte]
   rw [actualOf_star abs sg ci h, parse_starGlob (giOpts ci) (rgStar sg) (rgStar_wf sg h.wf)]
   rfl
 
